@@ -652,6 +652,12 @@ def run_enumerated(chk, trees, quick: bool):
             # of the first is what separates them) and as the body of a loop
             sv, sw, sy = (L.Symbol(n_, L.DataType.SCALAR) for n_ in ("v", "w", "y"))
             ii = L.Symbol("i", L.DataType.INT)
+            # loop bounds that are expressions of low precedence (a selection, a sum)
+            nn = L.Symbol("n", L.DataType.INT)
+            for nm, bound in (("Conditional", L.Conditional(L.GT(nn, 2), 3, 4)), ("Add", L.Add(nn, 2))):
+                lp = L.ForRange(ii if False else L.Symbol("i", L.DataType.INT), 0, bound,
+                                body=[L.Statement(L.AssignAdd(L.Symbol("w", L.DataType.SCALAR), x))])
+                cs.add(lang, st, "stmts", lp, f"ForRange[end={nm}]", fm)
             for cls in (L.Assign, L.AssignAdd, L.AssignSub, L.AssignMul, L.AssignDiv):
                 two = L.StatementList([L.Statement(cls(sv, L.Add(x, sy))), L.Statement(L.Assign(sw, sy))])
                 cs.add(lang, st, "stmts", two, f"{cls.__name__};Assign", fm)
